@@ -78,6 +78,8 @@ const char *rtosc_match_path(const char *pattern,
         //Check for special characters
         if(*pattern == ':' && !*msg)
             return *path_end = msg, pattern;
+        else if(*pattern == ':') //the pattern's path ended, the message's did not
+            return NULL;
         else if(*pattern == '{') {
             pattern = rtosc_match_options(pattern, &msg);
             if(!pattern)
